@@ -130,13 +130,23 @@ def h_text_inputs_call(E):
     which = E.choice('grader', ['string', 'formula', 'singlelist', 'list'])
     name = E.choice('shape', SHAPES)
     obj = _shape(name)
-    g = {'string': lambda: StringGrader(answers='abc'), 'formula': lambda: FormulaGrader(answers='1'), 'singlelist': lambda: SingleListGrader(answers=['a', 'b'], subgrader=StringGrader()),
-         'list': lambda: ListGrader(answers=['a', 'b', 'c'], subgraders=StringGrader())}[which]()
+    configured = E.fork_bool('answers_configured') or which == 'list'
+    debug = E.fork_bool('debug')
+    if configured:
+        g = {'string': lambda: StringGrader(answers='abc', debug=debug), 'formula': lambda: FormulaGrader(answers='1', debug=debug),
+             'singlelist': lambda: SingleListGrader(answers=['a', 'b'], subgrader=StringGrader(), debug=debug),
+             'list': lambda: ListGrader(answers=['a', 'b', 'c'], subgraders=StringGrader(), debug=debug)}[which]()
+        expect = None
+    else:
+        # answers inferred from the expect argument of the call (the edX "expect" attribute)
+        g = {'string': lambda: StringGrader(debug=debug), 'formula': lambda: FormulaGrader(debug=debug),
+             'singlelist': lambda: SingleListGrader(subgrader=StringGrader(), debug=debug)}[which]()
+        expect = {'string': 'abc', 'formula': '1', 'singlelist': 'a, b'}[which]
     wants_list = which == 'list'
     ok_shape = (name in ('list-of-str',)) if wants_list else (name in ('str', 'empty-str'))
     from mitxgraders.exceptions import StudentFacingError
     try:
-        r = g(None, obj)
+        r = g(expect, obj)
         err = None
     except ConfigError as e:
         r, err = None, 'ConfigError'
@@ -282,7 +292,7 @@ def harnesses(tier):
         hs.append(Harness(pname(base, **params), fn, tuple(params.values()), FUNCS, bounds, STUBS, **kw))
     add(h_wrapper, 'wrapper', {}, 'every catalogue exception x debug x single/list input x message shape', validate=False)
     add(h_text_inputs, 'text_inputs', {}, '3 variants x 14 input-object shapes', validate=False)
-    add(h_text_inputs_call, 'text_inputs_call', {}, '4 graders x 14 input-object shapes', validate=False)
+    add(h_text_inputs_call, 'text_inputs_call', {}, '4 graders x configured/inferred answers x debug x 14 input-object shapes', validate=False)
     for ex in ARITH:
         add(h_arith, 'arith', dict(expr=ex), 'a,b,c any reals in [-2,2]')
     add(h_brackets, 'brackets', dict(N=8 if T else 6), 'all Unicode strings up to that length', max_paths=300000 if T else None)
